@@ -33,7 +33,7 @@ ASSUMPTIONS = ["'profile' (pd.Series) is not serialisable by design (NotImplemen
                "problems compared exactly (same code path before and after the round trip)"]
 
 KINDS = ["simple", "contract", "transport", "exttransport", "storage", "storage_mip", "storage_blocks", "multi", "plant",
-         "chp", "chp_minload", "orderbook", "orderbook_frame", "scaled", "structured", "linked", "chp", "plant", "scaled",
+         "chp", "chp_minload", "chp_noheat", "orderbook", "orderbook_frame", "scaled", "structured", "linked", "chp", "plant", "scaled",
          "linked"]
 
 
@@ -56,6 +56,9 @@ def _strategy(draw):
             a["start_ramp_lower_bounds"] = [0.5 / cx.dt0]
             a["start_ramp_upper_bounds"] = [0.5 / cx.dt0]
             a["ramp_freq"] = g["freq"]
+    elif kind == "chp_noheat":
+        a = gen.a_plant(draw, cx, "x")
+        a["type"] = "chp_noheat"
     elif kind == "chp_minload":
         a = gen.a_chp(draw, cx, "x")
         a["type"] = "chp_minload"
@@ -113,7 +116,9 @@ def _strategy(draw):
         for i in range(draw(st.integers(0, 2))):
             assets.append(gen.draw_asset(draw, cx, draw(st.sampled_from(["simple", "contract", "storage"])), "c%d" % i))
     return {"grid": g, "prices": cx.prices, "assets": assets, "wrap": wrap, "kind": kind,
-            "after_setup": draw(st.booleans())}
+            "after_setup": draw(st.booleans()),
+            # zone-aware stamps as pandas builds them from a zone name (pytz) or carrying a zoneinfo.ZoneInfo object
+            "zoneinfo": g["tz"] is not None and draw(st.integers(0, 2)) == 0}
 
 
 def strategy(tier):
@@ -184,7 +189,8 @@ def check(spec):
     out = Outcome()
     a = spec["assets"][0]
     out.label("kind:" + spec["kind"], "wrap:" + spec["wrap"], "after_setup" if spec["after_setup"] else "before_setup",
-              "naive_on_aware" if a.get("naive") else None, "tz:" + str(spec["grid"]["tz"]))
+              "naive_on_aware" if a.get("naive") else None, "tz:" + str(spec["grid"]["tz"]),
+              "stamps:zoneinfo" if spec.get("zoneinfo") and not a.get("naive") else None)
     if a.get("naive") and ambiguous_stamps(spec):
         return out.drop("ambiguous_wall_time")
     obj = make(spec)
